@@ -128,6 +128,7 @@ int cif_packet_create(cif_packet_tp **packet, UChar *names[]) {
 int cif_packet_create_norm(cif_packet_tp **packet, UChar **names, int avoid_aliasing) {
     FAILURE_HANDLING;
     cif_packet_tp *temp_packet;
+    struct entry_s *pending = NULL;  /* an entry not (yet) owned by the packet */
 
     assert(names != NULL);
     assert(packet != NULL);
@@ -147,6 +148,7 @@ int cif_packet_create_norm(cif_packet_tp **packet, UChar **names, int avoid_alia
             if (scalar == NULL) {
                 FAIL(soft, CIF_MEMORY_ERROR);
             } else {
+                pending = scalar;
                 scalar->as_value.kind = CIF_UNK_KIND;
                 if (avoid_aliasing == 0) {
                     scalar->key = *name;
@@ -156,6 +158,7 @@ int cif_packet_create_norm(cif_packet_tp **packet, UChar **names, int avoid_alia
                 }
                 scalar->key_orig = scalar->key;
                 HASH_ADD_KEYPTR(hh, temp_packet->map.head, scalar->key, U_BYTES(scalar->key), scalar);
+                pending = NULL;
             }
         }
 
@@ -164,6 +167,12 @@ int cif_packet_create_norm(cif_packet_tp **packet, UChar **names, int avoid_alia
         return CIF_OK;
 
         FAILURE_HANDLER(soft):
+        if (pending != NULL) {
+            if (avoid_aliasing != 0) {
+                free(pending->key);  /* NULL if duplicating the name is what failed */
+            }
+            free(pending);
+        }
         cif_packet_free(temp_packet);
     }
 
